@@ -26,25 +26,27 @@ RP(ev) == [sn |-> ev.psn, nesn |-> ev.pnesn, pdu |-> [id |-> ev.pid, len |-> ev.
 ResetAll ==
     /\ cSn' = 0 /\ cNesn' = 0 /\ cCur' = <<>> /\ cData' = <<>> /\ cAcked' = 0 /\ cGot' = <<>>
     /\ committed' = <<>> /\ pOut' = <<>> /\ pSent' = 0 /\ pSn' = 0 /\ pNesn' = 0
-    /\ stored' = <<>> /\ delivered' = <<>> /\ rxCtr' = 0 /\ txCtr' = 0 /\ air' = <<>>
+    /\ stored' = <<>> /\ delivered' = <<>> /\ dropped' = <<>> /\ rxCtr' = 0 /\ txCtr' = 0 /\ air' = <<>>
 
 \* cheap observations logged with every call: pending_outgoing_data_available(), next_received().size != 0
+\* (the latter is the parameter vis of Read / Exchange: it settles which reserved-LLID PDUs were dropped)
+ObsPending(ev) == ev.pending = (Len(committed') > txCtr')
 ObsOK(ev) ==
-    /\ ev.pending = (Len(committed') > txCtr')
+    /\ ObsPending(ev)
     /\ ev.rxhead  = (stored' # <<>>)
 
 ExplainX(ev) ==
-    \E ackC, dataC \in BOOLEAN :
-        /\ Exchange(CP(ev), ev.out, ackC, dataC)
+    \E ackC, dataC, accC \in BOOLEAN :
+        /\ Exchange(CP(ev), ev.out, ackC, dataC, accC, ev.rxhead)
         /\ IF ev.out = "lost"
            THEN ~ev.resp
            ELSE ev.resp /\ ev.pok /\ air' = <<RP(ev)>>
-        /\ ObsOK(ev)
+        /\ ObsPending(ev)
 
 Explain(ev) ==
     \/ ev.e = "Reset"  /\ ResetAll
     \/ ev.e = "commit" /\ Commit([id |-> ev.id, len |-> ev.len, llid |-> ev.llid], ev.r) /\ ObsOK(ev)
-    \/ ev.e = "read"   /\ Read([id |-> ev.id, len |-> ev.len, llid |-> ev.llid]) /\ ev.ok /\ ObsOK(ev)
+    \/ ev.e = "read"   /\ Read([id |-> ev.id, len |-> ev.len, llid |-> ev.llid], ev.rxhead) /\ ev.ok /\ ObsPending(ev)
     \/ ev.e = "x"      /\ ExplainX(ev)
     \/ ev.e = "crx"    /\ CentralRx(ev.pout)
                        /\ ev.csn = cSn' /\ ev.cnesn = cNesn' /\ ev.cfree = (cCur' = <<>>) /\ ev.cgot = Len(cGot')
@@ -55,11 +57,14 @@ Failing(pairs) == LET f == SelectSeq(pairs, LAMBDA p : p[2]) IN [i \in 1..Len(f)
 DiagX(ev) ==
     LET c == CP(ev)
         r == RP(ev)
-        a == Answer(c, ev.out, TRUE, TRUE)            \* nesn and rxinc do not depend on the choices
+        acc == ~Rsv(c.pdu) \/ r.nesn # pNesn         \* a reserved-LLID PDU may be refused: take what the answer shows
+        Ans(ackC, dataC) == Answer(c, ev.out, ackC, dataC, acc)
+        a == Ans(TRUE, TRUE)                          \* nesn and rxinc do not depend on the other choices
         fits(b) == b.sn = r.sn /\ b.pdu = r.pdu
-        anyfit == \E ackC, dataC \in BOOLEAN : fits(Answer(c, ev.out, ackC, dataC))
+        anyfit == \E ackC, dataC \in BOOLEAN : fits(Ans(ackC, dataC))
         cls == <<ev.out, IF c.sn = pNesn THEN "new" ELSE "retx", IF IsData(c.pdu) THEN "data" ELSE "empty",
-                 IF pOut # <<>> /\ c.nesn # pOut[1].sn THEN "acks" ELSE "noack">>
+                 IF pOut # <<>> /\ c.nesn # pOut[1].sn THEN "acks" ELSE "noack",
+                 IF Rsv(c.pdu) THEN "llid0" ELSE "llid123">>
         what == IF air # <<>> \/ ~CentralSends(c) \/ ev.out \notin Outcomes THEN <<"harness">>
                 ELSE IF ev.out = "lost" THEN (IF ev.resp THEN <<"answer-to-lost">> ELSE <<"other">>)
                 ELSE IF ~ev.resp THEN <<"no-answer">>
@@ -69,14 +74,14 @@ DiagX(ev) ==
                     <<"rxinc", r.rxinc # a.rxinc>>,
                     <<"retransmission-differs", ~anyfit /\ pOut # <<>> /\ r.sn = pOut[1].sn>>,
                     <<"new-pdu-without-ack", ~anyfit /\ pOut # <<>> /\ r.sn # pOut[1].sn
-                                             /\ ~\E ackC, dataC \in BOOLEAN : Answer(c, ev.out, ackC, dataC).new>>,
+                                             /\ ~\E ackC, dataC \in BOOLEAN : Ans(ackC, dataC).new>>,
                     <<"new-pdu-wrong", ~anyfit /\ (pOut = <<>> \/ r.sn # pOut[1].sn)
-                                       /\ \E ackC, dataC \in BOOLEAN : Answer(c, ev.out, ackC, dataC).new>>,
+                                       /\ \E ackC, dataC \in BOOLEAN : Ans(ackC, dataC).new>>,
                     <<"txinc", anyfit /\ ~\E ackC, dataC \in BOOLEAN :
-                                             /\ fits(Answer(c, ev.out, ackC, dataC))
-                                             /\ Answer(c, ev.out, ackC, dataC).txinc = r.txinc>>,
+                                             /\ fits(Ans(ackC, dataC))
+                                             /\ Ans(ackC, dataC).txinc = r.txinc>>,
                     <<"payload", ~ev.pok>>,
-                    <<"rxhead", ev.rxhead # (stored # <<>> \/ a.rxinc = 1)>>,
+                    <<"rxhead", ~Settled(StoredAfter(c, ev.out, acc), ev.rxhead)>>,
                     <<"pending", ev.pending # (Len(committed) > txCtr + r.txinc)>> >>)
     IN  <<IF what = <<>> THEN <<"other">> ELSE what, cls>>
 
@@ -84,9 +89,12 @@ Diag(ev) ==
     CASE ev.e = "x"      -> DiagX(ev)
       [] ev.e = "read"   -> <<Failing(<< <<"payload", ~ev.ok>>,
                                          <<"phantom", stored = <<>> /\ ev.id # 0>>,
-                                         <<"missing", stored # <<>> /\ ev.id = 0>>,
-                                         <<"wrong-pdu", stored # <<>> /\ ev.id # 0 /\ ev.id # Head(stored).id>>,
-                                         <<"rxhead", ev.rxhead # (Len(stored) > 1)>>,
+                                         <<"missing", Real(stored) # <<>> /\ ev.id = 0>>,
+                                         <<"wrong-pdu", stored # <<>> /\ ev.id # 0
+                                                        /\ ~\E k \in 0..(Len(stored) - 1) :
+                                                               /\ AllRsv(SubSeq(stored, 1, k))
+                                                               /\ stored[k + 1] = [id |-> ev.id, len |-> ev.len, llid |-> ev.llid]>>,
+                                         <<"rxhead", IF ev.rxhead THEN Len(stored) <= 1 ELSE Len(Real(stored)) > 1>>,
                                          <<"pending", ev.pending # (Len(committed) > txCtr)>> >>), <<>> >>
       [] ev.e = "commit" -> <<Failing(<< <<"refused-while-empty", RoomRule /\ ~ev.r /\ Len(committed) = txCtr>>,
                                          <<"rxhead", ev.rxhead # (stored # <<>>)>>,
